@@ -22,7 +22,7 @@ import re
 
 
 def register(gen, T):
-    from rustsrc import ExtractError, fn_body, first_match, match_arms, lean_str, normws, split_top
+    from rustsrc import ExtractError, fn_body, impl_fn_body, first_match, match_arms, lean_str, normws, split_top
 
     @gen("MacroTables")
     def macro_tables():
@@ -159,7 +159,7 @@ def register(gen, T):
                     r'if (search_pos\.last_macro_function_index == macro_index && i < search_pos\.next_pos) \{ continue; \}',
                     r'if (activate_pos < search_pos\.next_pos) \{ continue; \}',
                     r'(activate_pos = tokens\.len\(\) - trimmed\.len\(\));',
-                    r'let (trimmed = trim_whitespace_start\(&tokens\[i \+ 1\.\.\]\));',
+                    r'let (trimmed = trim_whitespace_[a-z_]*start\(&tokens\[i \+ 1\.\.\]\));',
                     r'while (pos\.next_pos < tokens\.len\(\)) \{'):
             src_text = normws(ami) if pat.startswith('while') else fsm
             m2 = re.search(pat, src_text)
@@ -168,6 +168,36 @@ def register(gen, T):
             uses.append(m2.group(1))
         out.append("/-- the places where `find_single_macro` / the loop of `apply_macros_internal` consult the search position -/\n")
         out.append("def searchPositionUses : List String := " + T.lean_list(lean_str(x) for x in uses) + "\n\n")
+
+        # --- which white space is skipped where (fix f08088c: an invocation may continue on the next line) ----
+        def trim_condition(fname):
+            b = normws(fn_body(pre, fname))
+            m3 = re.fullmatch(r'while let Some\(\(PreprocessToken\(tok, _\), rest\)\) = tokens\.(split_first|split_last)\(\) \{ '
+                              r'if (.+?) \{ tokens = rest; \} else \{ break; \} \} tokens', b)
+            if not m3:
+                raise ExtractError(f"{fname}: not the expected trimming loop")
+            return [fname, m3.group(1), m3.group(2)]
+        trims = [trim_condition(f) for f in ("trim_whitespace_start", "trim_whitespace_end",
+                                             "trim_whitespace_and_endlines_start")]
+        out.append("/-- the trimming loops: `[function, end it works on, condition under which a token is removed]` -/\n")
+        out.append("def trimLoops : List (List String) :=\n  " +
+                   T.lean_list(T.lean_list(lean_str(x) for x in row) for row in trims) + "\n\n")
+        sma = normws(fn_body(pre, "split_macro_args"))
+        m3 = re.search(r'let (remaining = trim_whitespace_[a-z_]*start\(remaining\));', sma)
+        if not m3:
+            raise ExtractError("split_macro_args: the trim before the opening parenthesis not found")
+        arg_trims = sorted(set(re.findall(r'let (arg = [a-z_]+\(&remaining\[\.\.pos\]\));', sma)))
+        if not arg_trims:
+            raise ExtractError("split_macro_args: the trimming of the arguments not found")
+        m4 = re.search(r'if macro_def\.num_params == 0 \{ if (!\(.+?\)) \{ return Err\(PreprocessError::'
+                       r'MacroExpectsDifferentNumberOfArguments\); \} \} else if (args\.len\(\) as u64 != macro_def\.num_params) \{',
+                       asm_n)
+        if not m4:
+            raise ExtractError("apply_single_macro: the arity checks not found")
+        out.append("/-- `split_macro_args`: how the `(` is reached and how each argument is trimmed; `apply_single_macro`: the two\n"
+                   "arity tests (macro without parameters / with parameters) -/\n")
+        out.append("def argumentReading : List String := " +
+                   T.lean_list(lean_str(x) for x in [m3.group(1)] + arg_trims + [m4.group(1), m4.group(2)]) + "\n\n")
 
 
         # --- the nesting limit of #include (fix 6b8d369) ---------------------------------------------------
@@ -187,6 +217,35 @@ def register(gen, T):
         out.append(f"def maxIncludeDepth : Nat := {mm.group(1)}\n\n")
         out.append("/-- the depth starts at 0, is tested before the file is loaded, and is raised by one around the recursive call -/\n")
         out.append(f"def includeDepthCheckedBeforeLoad : Bool := {'true' if shape_ok else 'false'}\n\n")
+
+        # --- FileLoader::load: which key identifies a file (fix d66a6d7) --------------------------------------
+        fl = normws(impl_fn_body(pre, r"FileLoader", "load"))
+        identity = []
+        for pat in (r'let id = match (self\.file_name_remap\.get\(file_name\)) \{ Some\(id\) => \*id, None => \{',
+                    r'let file_data = (self\.include_handler\.load\(file_name, parent_name\))\?;',
+                    r'let id = match (self\.real_name_remap\.get\(&file_data\.real_name\)) \{ Some\(id\) => \*id, None => \{',
+                    r'(self\.real_name_remap\.insert\(real_name, id\));',
+                    r'(self\.file_name_remap\.insert\(file_name\.to_string\(\), id\));',
+                    r'if (self\.pragma_once_files\.contains\(&id\)) \{ Ok\(InputFile \{ file_id: id, contents: String::new\(\), \}\) \}',
+                    r'let contents = (self\.source_manager\.get_contents\(id\));'):
+            m5 = re.search(pat, fl)
+            if not m5:
+                raise ExtractError(f"FileLoader::load: pattern {pat!r} not found")
+            identity.append(m5.group(1))
+        mo = normws(impl_fn_body(pre, r"FileLoader", "mark_as_pragma_once"))
+        if mo != "self.pragma_once_files.insert(file_id);":
+            raise ExtractError(f"mark_as_pragma_once: body is {mo!r}")
+        identity.append(mo.rstrip(';'))
+        out.append("/-- `FileLoader::load` / `mark_as_pragma_once`: the id of a file is looked up by include name (cache), then by the\n"
+                   "real name the handler reports; the once-set holds ids; contents come from the source manager -/\n")
+        out.append("def fileIdentity : List String := " + T.lean_list(lean_str(x) for x in identity) + "\n\n")
+
+        # the API define that contains a line end is rejected before Macro::parse (fix 3c81ed5)
+        pif0 = normws(fn_body(pre, "preprocess_initial_file"))
+        m6 = re.search(r'if (tokens\.iter\(\)\.any\(\|t\| t\.0 == Token::Endline\)) \{ return Err\(PreprocessError::InvalidDefine\('
+                       r'SourceLocation::UNKNOWN\)\); \} let macro_def = Macro::parse\(&tokens\)\?;', pif0)
+        out.append("/-- an API define whose tokens contain `Token::Endline` is `InvalidDefine`, tested right before `Macro::parse` -/\n")
+        out.append(f"def apiDefineLineBreakRejected : Bool := {'true' if m6 else 'false'}\n\n")
 
         # initial defines go through the `#define` path: each (name, value) becomes the located text "name value",
         # is lexed without a trailing line end, parsed by Macro::parse, and replaces an earlier macro of that name
